@@ -463,10 +463,28 @@ def calendar_cases(ck, rng, n):
         ts.append(o + rng.choice([-1, 0, 1]) * rng.choice([G.US, dt.timedelta(hours=1), dt.timedelta(days=1)]))
     out = ck.driver([f"cal {G.us(t)}" for t in ts])
     for t, o in zip(ts, out):
-        want = [t.year, t.month, t.day, t.timetuple().tm_yday, t.hour] + [G.us(set_time_resolution(t, r)) for r in ("year", "month", "day", "hour")]
+        want = [t.year, t.month, t.day, t.timetuple().tm_yday, t.hour, t.minute, t.second, t.microsecond] + \
+               [G.us(set_time_resolution(t, r)) for r in ("year", "month", "day", "hour")]
         ck.case(kind="calendar")
         if [int(x) for x in o.split()] != want:
             ck.disagree(f"calendar: model {o} vs CPython {want} at {t.isoformat()}", {"op": "cal", "t": t.isoformat()})
+    # datetime(y, m, d[, h]) validity and value
+    tup = []
+    for _ in range(n):
+        y = rng.choice([0, 1, 4, 1900, 2000, 2023, 2024, 9999, 10000, rng.randint(1, 9999)])
+        m = rng.choice([0, 1, 2, 2, 12, 13, rng.randint(1, 12)])
+        d = rng.choice([0, 1, 28, 29, 30, 31, 32])
+        h = rng.choice([None, 0, 23, 24])
+        tup.append((y, m, d, h))
+    out = ck.driver([f"mk {y} {m} {d} {'-' if h is None else h}" for y, m, d, h in tup])
+    for (y, m, d, h), o in zip(tup, out):
+        try:
+            want = str(G.us(dt.datetime(y, m, d, h or 0)))
+        except ValueError:
+            want = "none"
+        ck.case(kind="calendar/mk")
+        if o.strip() != want:
+            ck.disagree(f"mkDate {y,m,d,h}: model {o} vs CPython {want}", {"op": "mk", "args": [y, m, d, h]})
 
 
 # ---------------------------------------------------------------- corpus / exploration
